@@ -2,7 +2,7 @@
 
 PROP = dict(
     level="proof",
-    lean_modules=['PopsModel.Props.C01', 'PopsModel.Props.C01Step'],
+    lean_modules=['PopsModel.Props.C01', 'PopsModel.Props.C01Step', 'PopsModel.Props.NonVacuous.Host'],
     theorems=['Pops.C01_cell_step', 'Pops.C01_move', 'Pops.C01_history', 'Pops.C01_generators', 'Pops.C01_model_step'],
     commands=[],
     runs={
